@@ -38,10 +38,15 @@ LEVEL_TEXT = (
     "is-None test, an ordering comparison whose exceeded side ends in RequestEntityTooLarge, a parameter of the same meaning of "
     "the next constructor (by keyword, position or keyword dictionary), the same-named attribute, or the limit of a "
     "maximum-limited stream; it decides nothing by truth value or equality and is part of no other call argument, stored or "
-    "returned value (operators and transparent builtins pass the dependence on) - non-interference, hence 'identical result "
-    "when no guard fires'. Memory held inside the stdlib is not modelled."
+    "returned value, of no object a method is applied to, of no sequence a loop runs over and of no `del x[...]` (operators, "
+    "subscripts / slices and transparent builtins pass the dependence on) - non-interference, hence 'identical result "
+    "when no guard fires'. A limit as the size of a read (`x.read(n)`, read1, readline, readlines, recv, peek, readinto - "
+    "whatever the class of x, also through an alias of the bound method) is a truncation, hence a violation, unless every "
+    "path that goes on without RequestEntityTooLarge knows len(result) < n (the read came back short: all input was seen); "
+    "when the same object is read again later on the path or the read is one round of a loop this is not decided (exit 2). "
+    "Whether a caller inspects what a sized read left in the stream is not modelled. Memory held inside the stdlib is not modelled."
 )
-TRUSTED = ["CPython ast", "bytearray.extend(data) grows the buffer by len(data)"]
+TRUSTED = ["CPython ast", "bytearray.extend(data) grows the buffer by len(data)", "x.read(n) / read1 / readline / readlines / recv / peek / readinto hand back at most n bytes, whatever x is"]
 ASSUMPTIONS = [
     "SpooledTemporaryFile and parse_qsl internals are not followed",
     "limits, lengths and counters are ints or None, so a > b is a >= b + 1",
@@ -69,7 +74,7 @@ def run(ctx: Ctx) -> None:
         "R10.3": "in MultiPartParser.parse every path that hands event.data on guarantees accumulated size + len(event.data) <= max_form_memory_size (or limit None / file part); the counter is reset at Field, None at File",
         "R10.4": "urlencoded body: an unbounded stream.read() is dominated by a size bound; get_input_stream decision table (declared length, streamed maximum)",
         "R10.5": "each limit reaches the same-named parameter of every constructor of the chain and is stored in the attribute the guards read; Request defaults 500000 / 1000 / None",
-        "R10.6": "on every path a configured limit reaches only is-None tests, ordering comparisons whose exceeded side raises RequestEntityTooLarge, the same-meaning parameter / attribute of the next stage, or the limit of LimitedStream(is_max=True)",
+        "R10.6": "on every path a configured limit reaches only is-None tests, ordering comparisons whose exceeded side raises RequestEntityTooLarge, the same-meaning parameter / attribute of the next stage, or the limit of LimitedStream(is_max=True); never a read size (unless the read is known to have come back short wherever parsing goes on), a slice bound, an object a method works on, a loop's sequence",
     }.items():
         ctx.rule(rid, text)
 
@@ -596,12 +601,18 @@ def _r104(ctx: Ctx, fp: ClassInfo) -> None:
         a = e.call.args  # type: ignore[union-attr]
         return e.call.func.attr == "readall" or not a or (isinstance(a[0], ast.Constant) and a[0].value in (None, -1)) or (isinstance(a[0], ast.UnaryOp) and isinstance(a[0].op, ast.USub))  # type: ignore[union-attr]
 
+    def reads_after_exceeding(p: Path) -> list[Ev]:
+        """reads made when the path already knows that the limit is exceeded (a sized read whose own result is then found
+        too long comes before that knowledge: it is how a stream without a declared length is measured)."""
+        ex = set(exceed_conds(p, LIMIT))
+        return [e for e in reads(p) if any((k, v) in ex for k, v, _ in p.conds[: e.ncond])]
+
     all_reads = {id(e.raw): e.raw for p in paths for e in reads(p)}
     ctx.floor("R10.4", "reads of the urlencoded body", len(all_reads), 1)
     un_sites = {id(e.raw): e.raw for p in paths for e in reads(p) if unbounded(e)}
     exceeded = [p for p in paths if exceed_conds(p, LIMIT)]
     for sid, raw in un_sites.items():
-        bad_a = [p for p in exceeded if not raised_retl(p) or reads(p)]
+        bad_a = [p for p in exceeded if not raised_retl(p) or reads_after_exceeding(p)]
         declared = [p for p in exceeded if any(CLEN in k for k, _ in exceed_conds(p, LIMIT))]
         ctx.ob("R10.4", "declared urlencoded length above max_form_memory_size is refused before reading", bool(declared) and not bad_a,
                "; ".join(p.describe()[:200] for p in bad_a[:2]) or (f"{len(declared)} path(s) with `{CLEN}` above the limit, each raises RequestEntityTooLarge before any read" if declared else "no comparison of the declared length with max_form_memory_size"), pu, raw, "urlencoded declared length")
@@ -717,6 +728,44 @@ def _has_limit(e: ast.AST | None) -> bool:
     return any(_has_limit(ch) for ch in ast.iter_child_nodes(e))
 
 
+# methods of the io / socket protocols whose argument is the largest amount handed back: whatever the receiver is, the
+# argument decides how much of the input the caller gets to see
+SIZED_READS = {"read", "read1", "readline", "readlines", "recv", "peek", "readinto", "readexactly", "readuntil"}
+
+
+def _in_loop(node: ast.AST | None) -> bool:
+    while node is not None:
+        if isinstance(node, (ast.For, ast.AsyncFor, ast.While, ast.ListComp, ast.SetComp, ast.DictComp, ast.GeneratorExp)):
+            return True
+        if isinstance(node, (ast.FunctionDef, ast.AsyncFunctionDef, ast.Lambda)):
+            return False
+        node = astq.parent(node)
+    return False
+
+
+def _sized_read(p: Path, e: Ev, size: ast.AST) -> tuple[bool | None, str]:
+    """`r = x.read(n)` with n computed from a limit.  It is a guard only when every way on that does not end in
+    RequestEntityTooLarge knows that the read came back short (len(r) < n: everything there was has been seen, the
+    result is what an unlimited read gives); a path that goes on without that knowledge has silently dropped what
+    lay beyond n bytes - the result depends on the limit.  None = cannot tell (the remainder may be looked at by a
+    later read, or the read is one round of a loop)."""
+    call = e.call
+    assert isinstance(call, ast.Call) and isinstance(call.func, ast.Attribute)
+    what = f"`{norm(call)[:70]}`"
+    if raised_retl(p):
+        return True, "the size of a read whose overflow ends in RequestEntityTooLarge"
+    S = lin(size)
+    if S is not None and e.k is not None and implies_le(p.cset(), Lin({f"len({symname(e.k)})": 1}, 1), S):
+        return True, "the size of a read that is known to have come back short wherever parsing goes on"
+    recv = norm(call.func.value)
+    later = [x for x in p.events if x is not e and p.events.index(x) > p.events.index(e) and x.kind == "call" and isinstance(x.call, ast.Call) and isinstance(x.call.func, ast.Attribute) and x.call.func.attr in SIZED_READS | {"readall"} and norm(x.call.func.value) == recv]
+    if later:
+        return None, f"{what} is followed by another read of the same object on the path: whether the remainder is accounted for is not decided"
+    if _in_loop(e.raw):
+        return None, f"{what} is one round of a loop: whether all rounds together see the whole input is not decided"
+    return False, f"NOT a pure guard: {what} hands back at most that many bytes and the path goes on ({p.outcome}) without knowing that the read came back short - what lay beyond is dropped, the result differs from the unlimited one"
+
+
 def _r106(ctx: Ctx, dec: ClassInfo, fp: ClassInfo, mp: ClassInfo) -> None:
     repo = ctx.repo
     want = both(_not_dunder, lambda h: h.name != "get_content_length", mentions(LIMIT_ATTRS | {RETL}))
@@ -747,6 +796,7 @@ def _r106(ctx: Ctx, dec: ClassInfo, fp: ClassInfo, mp: ClassInfo) -> None:
                 paths += sym.paths(start=h, stop=lambda n, h=h: n is h, env0=invariant_env(nf, h), max_paths=20000)
         # site -> (node for the location, description of the use, verdicts over all paths)
         sites: dict[tuple[int, str], tuple[ast.AST, str, list[tuple[bool, str]]]] = {}
+        undecided: list[tuple[FuncInfo, ast.AST, str]] = []
 
         def note(node: ast.AST, what: str, ok: bool, kind: str) -> None:
             sites.setdefault((id(node), what), (node, what, []))[2].append((ok, kind))
@@ -774,12 +824,25 @@ def _r106(ctx: Ctx, dec: ClassInfo, fp: ClassInfo, mp: ClassInfo) -> None:
                 if e.kind in ("call", "attempt") and isinstance(e.call, ast.Call):
                     call = e.call
                     vals = [(None, a) for a in call.args] + [(kw.arg, kw.value) for kw in call.keywords]
+                    if isinstance(call.func, ast.Attribute) and _has_limit(call.func.value) and not _is_limit_term(call.func.value):
+                        # `data[:limit].decode()`: the object the method works on was cut / computed with the limit
+                        note(e.raw, f"`{norm(call.func.value)[:60]}`", False, f"NOT a pure guard: `{norm(call)[:70]}` works on a value computed from the limit")
                     if not any(_has_limit(v_) for _, v_ in vals):
                         continue
                     last = callee_last(e, True) or callee_last(e) or "?"
                     if last in TRANSPARENT:
                         continue  # the value goes on into whatever uses the result
                     f_ = call.func
+                    if isinstance(f_, ast.Attribute) and last in SIZED_READS:
+                        # `x.read(n)` hands back at most n bytes whatever x is: the limit decides how much of the input is seen
+                        for _, v_ in vals:
+                            if _has_limit(v_):
+                                ok_, why = _sized_read(p, e, v_)
+                                if ok_ is None:
+                                    undecided.append((fi, e.raw, why))
+                                else:
+                                    note(e.raw, f"`{norm(v_)}`", ok_, why)
+                        continue
                     if isinstance(f_, ast.Attribute) and not (isinstance(f_.value, ast.Name) and f_.value.id == (nf.selfname or "self")) and last not in signatures and not last.endswith("LimitedStream") and isinstance(e.raw, ast.Call) and isinstance(e.raw.func, ast.Attribute) and isinstance(e.raw.func.value, ast.Name) and e.raw.func.value.id not in nf.object_class and e.raw.func.value.id in Sym(nf)._locals():
                         raise AnalysisError(f"{fi.fq}: a limit is passed to `{norm(e.raw)[:70]}`, a method of a local object whose class is not known: what it does with it cannot be decided")
                     sig = signatures.get(last) or signatures.get(callee_last(e) or "")
@@ -799,6 +862,10 @@ def _r106(ctx: Ctx, dec: ClassInfo, fp: ClassInfo, mp: ClassInfo) -> None:
                             note(e.raw, f"`{norm(v_)}`", True, "a forwarding edge")
                         else:
                             note(e.raw, f"`{norm(v_)}`", False, f"NOT a pure guard: passed to `{norm(call)[:70]}`")
+                elif e.kind == "iter" and _has_limit(e.call):
+                    note(e.raw, f"`{norm(e.call)[:60]}`", False, f"NOT a pure guard: the loop runs over `{norm(e.call)[:70]}`, a value computed from the limit")
+                elif e.kind == "del" and isinstance(e.call, ast.Delete) and any(_has_limit(x) for x in e.call.targets):
+                    note(e.raw, f"`{norm(e.call)[:60]}`", False, f"NOT a pure guard: `{norm(e.call)[:70]}` cuts a value at the limit")
                 elif e.kind in ("store", "aug") and hasattr(e.call, "value") and _has_limit(e.call.value):
                     tg = e.call.targets[0] if isinstance(e.call, ast.Assign) else e.call.target  # type: ignore[union-attr]
                     rec = isinstance(tg, ast.Attribute) and isinstance(e.raw, (ast.Assign, ast.AnnAssign, ast.AugAssign)) and isinstance(tg.value, (ast.Name, ast.Call)) and e.kind == "store" and _is_limit_term(e.call.value)
@@ -818,6 +885,10 @@ def _r106(ctx: Ctx, dec: ClassInfo, fp: ClassInfo, mp: ClassInfo) -> None:
                         ok = True  # a call on a freshly constructed object: the constructor event was classified
                     if not ok:
                         note(p.end.ast if p.end is not None and p.end.ast is not None else fi.node, f"`{norm(vv)[:60]}`", False, "NOT a pure guard: a limit is part of the returned value")
+        decided_bad = {nid for (nid, _), (_, _, verdicts) in sites.items() if not all(v[0] for v in verdicts)}
+        for ufi, raw, why in undecided:
+            if id(raw) not in decided_bad:
+                raise AnalysisError(f"{ufi.fq}: a limit is the size of the read `{norm(raw)[:70]}`: {why}")
         for (nid, what), (node, _, verdicts) in sites.items():
             nuse += 1
             ok = all(v[0] for v in verdicts)
